@@ -263,3 +263,4 @@ MANIFEST = {
             "accuracy), zero loss at ground truth, strict increase under perturbation, the learned-descan branch.",
     "technique": "centring typestate + kinded-axis abstract interpretation + sibling agreement of conventions (AST)",
 }
+MANIFEST["text"] += " Also: per-call setup (targets for this call's loss type, propagator arrays) lies on every path to the epoch loop (R8, must-pass-through); borrowed instances: the propagator kernel's unit modulus / linearity in the slice thickness / per-axis frequency grids (R9 = C16's rules) and the mixed-state orthogonalisation's index alignment (R10 = C10's rules)."
